@@ -347,6 +347,7 @@ void ezc3d::c3d::point(const std::vector<ezc3d::DataNS::Frame>& frames)
         throw std::invalid_argument("Points in the frames cannot be empty");
 
     std::vector<std::string> labels(parameters().group("POINT").parameter("LABELS").valuesAsString());
+    // Validate all the new points in all the frames before changing anything
     for (size_t idx = 0; idx < frames[0].points().nbPoints(); ++idx){
         const std::string &name(frames[0].points().point(idx).name());
         for (size_t i=0; i<labels.size(); ++i)
@@ -354,8 +355,11 @@ void ezc3d::c3d::point(const std::vector<ezc3d::DataNS::Frame>& frames)
                 throw std::invalid_argument("The point you try to create already exists in the data set");
 
         for (size_t f=0; f<data().nbFrames(); ++f)
-            _data->frame_nonConst(f).points_nonConst().point(frames[f].points().point(idx));
+            frames[f].points().point(idx);
     }
+    for (size_t idx = 0; idx < frames[0].points().nbPoints(); ++idx)
+        for (size_t f=0; f<data().nbFrames(); ++f)
+            _data->frame_nonConst(f).points_nonConst().point(frames[f].points().point(idx));
     updateParameters();
 }
 
@@ -391,6 +395,7 @@ void ezc3d::c3d::analog(const std::vector<ezc3d::DataNS::Frame> &frames)
         throw std::invalid_argument("Channels in the frame cannot be empty");
 
     std::vector<std::string> labels(parameters().group("ANALOG").parameter("LABELS").valuesAsString());
+    // Validate all the new channels in all the frames and subframes before changing anything
     for (size_t idx = 0; idx < frames[0].analogs().subframe(0).nbChannels(); ++idx){
         const std::string &name(frames[0].analogs().subframe(0).channel(idx).name());
         for (size_t i=0; i<labels.size(); ++i)
@@ -399,10 +404,15 @@ void ezc3d::c3d::analog(const std::vector<ezc3d::DataNS::Frame> &frames)
 
         for (size_t f=0; f < data().nbFrames(); ++f){
             for (size_t sf=0; sf < header().nbAnalogByFrame(); ++sf){
-                _data->frame_nonConst(f).analogs_nonConst().subframe_nonConst(sf).channel(frames[f].analogs().subframe(sf).channel(idx));
+                frames[f].analogs().subframe(sf).channel(idx);
+                data().frame(f).analogs().subframe(sf);
             }
         }
     }
+    for (size_t idx = 0; idx < frames[0].analogs().subframe(0).nbChannels(); ++idx)
+        for (size_t f=0; f < data().nbFrames(); ++f)
+            for (size_t sf=0; sf < header().nbAnalogByFrame(); ++sf)
+                _data->frame_nonConst(f).analogs_nonConst().subframe_nonConst(sf).channel(frames[f].analogs().subframe(sf).channel(idx));
     updateParameters();
 }
 
